@@ -227,9 +227,9 @@ def proof_layer(prop, thorough=False):
     res["obligations"] = len(theorems)
     outdir = os.path.join(BUILD, "props")
     os.makedirs(outdir, exist_ok=True)
-    with Lock("coq.lock"):
-        rc, out = sh("timeout 1200 coqc -Q theories EasyML -o %s/%s.vo theories/Properties/%s.v 2>&1"
-                     % (outdir, prop, prop), cwd=COQ, timeout=1300)
+    # (no lock: reads the .vo files make just brought up to date, writes a private output file)
+    rc, out = sh("timeout 1200 coqc -Q theories EasyML -o %s/%s.vo theories/Properties/%s.v 2>&1"
+                 % (outdir, prop, prop), cwd=COQ, timeout=1300)
     res["checker_cmd"] = "make -k -j%d (coq_makefile, full .vo) && coqc -Q theories EasyML theories/Properties/%s.v" % (NPROC, prop)
     if rc != 0:
         res["problems"].append("Properties/%s.v does not compile: %s" % (prop, out[-1500:]))
